@@ -390,8 +390,7 @@ func (c *MustacheParser) performSyntaxAnalysisForSection(variable string) ([]*Mu
 		result = append(result, resultToken)
 	}
 
-	token := c.getCurrentToken()
-	err = merr.NewMustacheError("", ErrCodeNotClosedSection, "Not closed section for variable '"+variable+"'", token.Line(), token.Column())
+	err = merr.NewMustacheError("", ErrCodeNotClosedSection, "Not closed section for variable '"+variable+"'", 0, 0)
 	return nil, err
 }
 
